@@ -132,6 +132,10 @@ class Effects:
                             effs.append(Effect("store", recv_info(n.args[0]), nm, n, n.args[0], func, op="setattr", value=n.args[2] if len(n.args) > 2 else None, stmt=n))
                         elif nm != "*":
                             effs.append(Effect("read", recv_info(n.args[0]), nm, n, n.args[0], func))
+                # a function handed over as a value (sorted(..., key=helper), map(helper, ...)) is called by the receiver
+                for av in list(n.args) + [kw.value for kw in n.keywords]:
+                    if isinstance(av, ast.Name) and av.id in self.repo.functions and ft.lookup(av.id, av) is None:
+                        calls.append(CallSite(n, [self.repo.functions[av.id]], True, func))
                 callees, resolved = ft.resolve_call(n)
                 self.stats["calls"] += 1
                 if callees:
@@ -143,6 +147,19 @@ class Effects:
                 c = recv_info(n.value)
                 if c is not None or not isinstance(n.value, ast.Name) or n.value.id not in self.repo.enums:
                     effs.append(Effect("read", c, n.attr, n, n.value, func))
+        # module-level tables the function consults (e.g. a (mode, key lambda, reverse) table): what the lambdas in them read is
+        # read on behalf of the function
+        mod = func.module
+        consulted = {n.id for n in ast.walk(func.node) if isinstance(n, ast.Name) and isinstance(n.ctx, ast.Load) and n.id in getattr(mod, "toplevel_names", ())}
+        for st0 in mod.tree.body:
+            if isinstance(st0, ast.Assign) and any(isinstance(t, ast.Name) and t.id in consulted for t in st0.targets):
+                for lam in ast.walk(st0.value):
+                    if isinstance(lam, ast.Lambda):
+                        for n in ast.walk(lam.body):
+                            if isinstance(n, ast.Attribute) and isinstance(n.ctx, ast.Load):
+                                effs.append(Effect("read", None, n.attr, n, n.value, func))
+                    elif isinstance(lam, ast.Name) and lam.id in self.repo.functions and lam.id not in consulted:
+                        calls.append(CallSite(st0, [self.repo.functions[lam.id]], True, func))
         self.by_func[id(func.node)] = effs
         self.calls[id(func.node)] = calls
 
